@@ -1,6 +1,7 @@
 package xmp
 
 import (
+	"bytes"
 	"fmt"
 	"math"
 	"strconv"
@@ -61,8 +62,10 @@ func parseDate(buf []byte) (t time.Time, err error) {
 
 // parseUUID parses a UUID and returns a meta.UUID
 func parseUUID(buf []byte) (uuid meta.UUID) {
-	if _, b := readUntil(buf, ':'); len(b) > 0 {
-		buf = b
+	// identifiers carry their scheme in front ("xmp.did:", "uuid:", "urn:uuid:",
+	// "adobe:docid:photoshop:"): the UUID is what follows the last colon
+	if i := bytes.LastIndexByte(buf, ':'); i >= 0 && i+1 < len(buf) {
+		buf = buf[i+1:]
 	}
 	err := uuid.UnmarshalText(buf)
 	if err != nil {
